@@ -19,14 +19,16 @@ import (
 // C19: client-side customisation applies to every outbound HTTP request.
 
 type C19Case struct {
-	Kind      int      `json:"kind"`      // 0 Streamable client, 1 legacy SSE client
-	Headers   int      `json:"headers"`   // number of WithHTTPHeaders options (0-2), each with its own key
-	Before    bool     `json:"before"`    // WithHTTPBeforeRequest configured
-	Handler   bool     `json:"handler"`   // WithHTTPReqHandler configured (otherwise the default handler over real loopback TCP)
-	Path      string   `json:"path"`      // WithClientPath ("" = none)
-	Init503   bool     `json:"init503"`   // the first handshake is answered 503, the second succeeds
-	Ops       []string `json:"ops"`       // call notify roots unknown terminate
-	BeforeErr string   `json:"beforeerr"` // request kind at which the before-request function fails once ("" = never)
+	Kind      int      `json:"kind"`             // 0 Streamable client, 1 legacy SSE client
+	Headers   int      `json:"headers"`          // number of WithHTTPHeaders options (0-2), each with its own key
+	Before    bool     `json:"before"`           // WithHTTPBeforeRequest configured
+	Handler   bool     `json:"handler"`          // WithHTTPReqHandler configured (otherwise the default handler over real loopback TCP)
+	Path      string   `json:"path"`             // WithClientPath ("" = none)
+	Init503   bool     `json:"init503"`          // the first handshake is answered 503, the second succeeds
+	Ops       []string `json:"ops"`              // call notify roots unknown terminate
+	BeforeErr string   `json:"beforeerr"`        // request kind at which the before-request function fails once ("" = never)
+	Query     string   `json:"query,omitempty"`  // query string of the configured URL ("" = none), e.g. "?api_key=k"
+	Del503    bool     `json:"del503,omitempty"` // the first session DELETE is answered 503 (the session stays alive on the server)
 }
 
 var c19Ops = []string{"call", "call", "notify", "roots", "unknown", "terminate", "list"}
@@ -42,6 +44,8 @@ func genC19(t *rapid.T) C19Case {
 	if c.Before && rapid.IntRange(0, 2).Draw(t, "beforeerr") == 2 {
 		c.BeforeErr = rapid.SampledFrom([]string{"POST:tools/call", "POST:initialize", "POST:notifications/initialized", "GET", "POST:notifications/roots/list_changed", "POST:response", "DELETE", "POST:tools/list"}).Draw(t, "errat")
 	}
+	c.Query = rapid.SampledFrom([]string{"", "", "?api_key=k1", "?a=1&b=%2Fx"}).Draw(t, "query")
+	c.Del503 = c.Kind == 0 && rapid.IntRange(0, 2).Draw(t, "del503") == 0
 	if c.Init503 && (c.BeforeErr == "POST:initialize" || c.BeforeErr == "GET") {
 		c.BeforeErr = "" // the refusal would land on the 503 handshake instead of the scripted place
 	}
@@ -108,6 +112,7 @@ func execC19(c C19Case) *Failure {
 	// the server-side log
 	var smu sync.Mutex
 	var serverLog []*SeenReq
+	delRefused := false
 	rec := http.HandlerFunc(func(w http.ResponseWriter, r *http.Request) {
 		var body []byte
 		if r.Body != nil {
@@ -118,6 +123,19 @@ func execC19(c C19Case) *Failure {
 		smu.Lock()
 		serverLog = append(serverLog, sr)
 		smu.Unlock()
+		if r.Method == http.MethodDelete && c.Del503 {
+			smu.Lock()
+			first := !delRefused
+			delRefused = true
+			if first {
+				sr.CtxVal = 503
+			}
+			smu.Unlock()
+			if first {
+				http.Error(w, "scripted status", http.StatusServiceUnavailable)
+				return
+			}
+		}
 		// the fake serves any path: the check is about where the client sends
 		r2 := r.Clone(r.Context())
 		if c.Kind == 0 {
@@ -187,6 +205,7 @@ func execC19(c C19Case) *Failure {
 		opts = append(opts, mcp.WithClientPath(c.Path))
 		wantPath = c.Path
 	}
+	url += c.Query
 	var cl *mcp.Client
 	var err error
 	if c.Kind == 0 {
@@ -349,6 +368,27 @@ func execC19(c C19Case) *Failure {
 				if c.Kind != 0 || terminated {
 					continue
 				}
+				smu.Lock()
+				refuse := c.Del503 && !delRefused
+				smu.Unlock()
+				if refuse {
+					// the server answers 503: the operation fails, the session stays alive and keeps being named in later requests
+					ctx, cancel := opCtx(tag)
+					err := cl.TerminateSession(ctx)
+					cancel()
+					bmu.Lock()
+					refusedByBefore := c.BeforeErr == "DELETE" && failedOnce
+					bmu.Unlock()
+					if refusedByBefore {
+						f = errSkipRest
+						break
+					}
+					wants = append(wants, want{"DELETE", tag})
+					if err == nil {
+						return Failf("C19/refused-delete-reported-as-success", "%s: the session DELETE was answered 503 but TerminateSession returned nil", where(tag))
+					}
+					break
+				}
 				f = runOp(tag, []string{"DELETE"}, func(ctx context.Context) error { return cl.TerminateSession(ctx) })
 				if f == nil {
 					terminated = true
@@ -400,6 +440,9 @@ func execC19(c C19Case) *Failure {
 		if sr.Path != expPath {
 			return Failf("C19/wrong-path/"+k, "%s: sent to %q, configured %q", w0, sr.Path, expPath)
 		}
+		if !(c.Kind == 1 && sr.Method == "POST") && sr.Query != strings.TrimPrefix(c.Query, "?") {
+			return Failf("C19/wrong-query/"+k, "%s: sent with query %q, the configured URL has %q", w0, sr.Query, strings.TrimPrefix(c.Query, "?"))
+		}
 		for hk, hv := range wantHeaders {
 			if sr.Header.Get(hk) != hv {
 				return Failf("C19/static-header-missing/"+k, "%s: request lacks the static header %s", w0, hk)
@@ -412,7 +455,7 @@ func execC19(c C19Case) *Failure {
 			if id, ok := sr.CtxVal.(string); ok && k == "POST:initialize" && id != "" {
 				issued = id
 			}
-			if k == "DELETE" {
+			if st, _ := sr.CtxVal.(int); k == "DELETE" && st != 503 {
 				issued = ""
 			}
 		}
